@@ -727,12 +727,28 @@ class GCodeBuilder(GCodeCore):
 
         mode = HaltMode(mode)
         statement = self._get_statement(mode, kwargs)
-        self.state._set_halt_mode(mode)
 
-        # Track temperatures if provided. Every temperature word given
-        # is checked; if both are present S takes precedence over R
+        # Every temperature word given is checked against its bounds
+        # before anything is committed to the state
 
         keys = ["R", "S"]  # Wait always, or wait when heating
+
+        bounds_name = {
+            HaltMode.WAIT_FOR_BED: "bed-temperature",
+            HaltMode.WAIT_FOR_HOTEND: "hotend-temperature",
+            HaltMode.WAIT_FOR_CHAMBER: "chamber-temperature",
+        }.get(mode)
+
+        for key in keys:
+            temperature = self._get_user_param([key], kwargs)
+
+            if temperature is not None and bounds_name is not None:
+                self.state._user_bounds.validate(bounds_name, temperature)
+
+        self.state._set_halt_mode(mode)
+
+        # Track temperatures if provided; if both are present S takes
+        # precedence over R
 
         for key in keys:
             temperature = self._get_user_param([key], kwargs)
